@@ -229,11 +229,19 @@ def _unwrap(elem):
     if _is_inspector(elem):
         return elem
     try:
-        for v in vars(elem).values():
-            if _is_inspector(v):
-                return v
+        vals = list(vars(elem).values())
     except TypeError:
-        pass
+        vals = []
+    for cls in type(elem).__mro__:
+        slots = cls.__dict__.get('__slots__', ())
+        for sl in ((slots,) if isinstance(slots, str) else slots):
+            try:
+                vals.append(getattr(elem, sl))
+            except AttributeError:
+                pass
+    for v in vals:
+        if _is_inspector(v):
+            return v
     if isinstance(elem, (tuple, list)):
         for v in elem:
             if _is_inspector(v):
